@@ -38,7 +38,7 @@ SLACK = 1
 def plan(tier, seed):
     n = 40 if tier == "quick" else 1000
     cases = [{"kind": "sample", "seed": seed, "batch": b, "n": 3} for b in range(n)]
-    for k in range(8 if tier == "quick" else 60):
+    for k in range(20 if tier == "quick" else 80):
         cases.append({"kind": "empty", "seed": seed, "k": k})
     for k in range(12 if tier == "quick" else 200):
         cases.append({"kind": "synthetic", "seed": seed, "k": k, "n": 6})
